@@ -225,6 +225,61 @@ class Fn:
     def local_by_name(self, name):
         return [i for i, l in enumerate(self.locals) if l.get("name") == name]
 
+    # -- name-independent rendering (so that renaming a local, or introducing one for a sub-expression, changes nothing)
+    def role_of(self, l):
+        """stable placeholder of a local: $n for parameter n; otherwise %<type>#k, k = rank among the locals of that type
+        that are assigned more than once (declaration order)"""
+        if 1 <= l <= self.nargs:
+            return f"${l}"
+        if not hasattr(self, "_roles"):
+            self._roles = {}
+            seen = {}
+            for i in range(self.nargs + 1, len(self.locals)):
+                if len(self.defs(i)) > 1 or self.partial_defs(i):
+                    ty = self.local_ty(i)
+                    k = seen.get(ty, 0)
+                    seen[ty] = k + 1
+                    self._roles[i] = f"%{ty}#{k}"
+        return self._roles.get(l, f"%{self.local_ty(l)}")
+
+    def denamed(self, e, keep=None):
+        """expand named single-definition locals to their defining expression and replace the remaining variables by
+        their role; `keep` maps local index -> fixed placeholder (e.g. {cost_local: 'COST'})"""
+        if not isinstance(e, tuple) or not e:
+            return e
+        if e[0] == "named":
+            if keep and e[2] in keep:
+                return ("var", keep[e[2]], e[2])
+            return self.denamed(e[3], keep)
+        if e[0] == "var":
+            if keep and e[2] in keep:
+                return ("var", keep[e[2]], e[2])
+            return ("var", self.role_of(e[2]), e[2])
+        return tuple(self.denamed(x, keep) if isinstance(x, tuple) else x for x in e)
+
+    def bit_direction(self):
+        """for a path walker: [('set'|'clear', 'left'|'right')] — which child of the Pair is taken on each edge of the
+        switch that tests a bit of the path (cond contains `BitAnd`); decided from expressions, not from local names"""
+        sel = []
+        for b in sorted(self.reachable_blocks()):
+            if self.term(b)["k"] != "switch" or self.term(b).get("ty") != "bool":
+                continue
+            c = show(self.denamed(self.switch_cond(b)))
+            if "BitAnd" not in c or "Ne 0" not in c and "!= 0" not in c and " Ne " not in c:
+                continue
+            be = self.bool_edges(b)
+            if not be:
+                continue
+            for edge, nm in ((be[0], "set"), (be[1], "clear")):
+                for st in self.stmts(edge):
+                    if st.get("d") and "rv" in st and not st["d"]["p"]:
+                        v = show(self.denamed(self.expr_rvalue(st["rv"])))
+                        if v.endswith(" as Pair).1"):
+                            sel.append((nm, "right"))
+                        elif v.endswith(" as Pair).0"):
+                            sel.append((nm, "left"))
+        return sorted(set(sel))
+
     def where(self, b=None, ln=None):
         if ln is None and b is not None:
             ln = self.term(b)["ln"]
@@ -797,6 +852,32 @@ def strip(e):
             return e
 
 
+def inline_pure(cr, e, depth=0):
+    """replace calls of local pure-arithmetic helpers (integer in, integer out, no calls, one return expression) by their
+    body with the arguments substituted, so that extracting arithmetic into a private helper leaves expressions equal"""
+    if not isinstance(e, tuple) or not e:
+        return e
+    e = tuple(inline_pure(cr, x, depth) if isinstance(x, tuple) else x for x in e)
+    if e[0] == "call" and depth < 4 and e[1] in cr.fns:
+        g = cr.fns[e[1]]
+        ints = ("u64", "usize", "u32", "u8", "bool", "i32", "i64", "u16")
+        if g.nargs and g.local_ty(0) in ints and all(g.local_ty(i) in ints for i in range(1, g.nargs + 1)) \
+                and not any(g.term(b)["k"] in ("call", "drop", "switch") for b in g.reachable_blocks()) and len(g.defs(0)) == 1 \
+                and len(e[2]) == g.nargs:
+            body = g.expr_rvalue(g.def_rvalue(g.defs(0)[0]))
+
+            def subst(x):
+                if not isinstance(x, tuple) or not x:
+                    return x
+                if x[0] == "named":
+                    return subst(x[3])
+                if x[0] == "var" and 1 <= x[2] <= g.nargs:
+                    return e[2][x[2] - 1]
+                return tuple(subst(y) if isinstance(y, tuple) else y for y in x)
+            return inline_pure(cr, subst(body), depth + 1)
+    return e
+
+
 # ----------------------------------------------------------------------------- rendering
 def show(e, short=True):
     k = e[0]
@@ -893,6 +974,19 @@ def canon_atom(e):
         return "len(" + show(inner) + ")"
     if e[0] == "len":
         return "len(" + show(e[1]) + ")"
+    if e[0] == "un" and e[1] == "PtrMetadata":
+        # the length of a slice value: same canonical form as a .len() call on it
+        inner = strip(e[2])
+        while True:
+            if inner[0] == "ref":
+                inner = strip(inner[2])
+            elif inner[0] == "deref":
+                inner = strip(inner[1])
+            elif inner[0] == "call" and (inner[1].endswith("::deref") or inner[1].endswith("::as_slice") or inner[1].endswith("::as_ref")) and len(inner[2]) == 1:
+                inner = strip(inner[2][0])
+            else:
+                break
+        return "len(" + show(inner) + ")"
     return show(e)
 
 
